@@ -98,6 +98,11 @@ func (e *Engine) invoke(st *State, fv Value, args []Value, rk retKind, c *ssa.Ca
 		e.finishCall(st, rk, res)
 		return
 	}
+	if fn.Synthetic == "package initializer" && len(st.frames) > 0 {
+		// other packages' initializers are run lazily on first global access
+		e.finishCall(st, rk, nil)
+		return
+	}
 	if m, ok := models[key]; ok {
 		e.rep.Models["model "+key]++
 		res := m(e, st, args, c)
